@@ -8,6 +8,7 @@ package commitlog
 // and with an independently computed must-keep set.
 
 import (
+	"encoding/hex"
 	"fmt"
 	"strconv"
 	"strings"
@@ -119,7 +120,18 @@ func TestVerifC08(t *testing.T) {
 		"non-trivial = compaction ran on >= 2 segments and removed at least one message; distinct by program text")
 	defer res.Write(t)
 	rnd := vNewRand(8)
-	keys := []string{"-", `""`, "61", "62", "63"}
+	plainKeys := []string{"-", `""`, "61", "62", "63"}
+	keys := plainKeys
+	// distinct keys that a shortcut would take for one: equal under CRC-32C / CRC-32 / FNV-1a / FNV-1 / Adler-32 (found by
+	// search, tools note in DESIGN 9.9), equal after case folding or trimming, equal in their first 8 bytes, one a prefix of the other
+	hx := func(k string) string { return hex.EncodeToString([]byte(k)) }
+	advPools := [][]string{
+		{hx("key-456e5e77"), hx("key-6796c73b"), hx("key-7219ce6a"), hx("key-66569642")}, // crc32c
+		{hx("key-3f3c9eab"), hx("key-23838f58"), hx("key-612141f4"), hx("key-c1f0bfea")}, // crc32 (IEEE)
+		{hx("k32728"), hx("k261234"), hx("key-c0e302db"), hx("key-8ae4ac3b")},             // fnv1a32, fnv1_32
+		{hx("k120"), hx("k201"), hx("Key"), hx("key"), hx(" key"), hx("key ")},             // adler32, case, blanks
+		{hx("prefix-0001-a"), hx("prefix-0001-b"), hx("ab"), hx("abc"), hx("a\x00"), hx("a")}, // common prefix, prefix, NUL
+	}
 
 	check := func(prog []string) {
 		impl, mod := vRunBoth(t, model, prog)
@@ -269,6 +281,12 @@ func TestVerifC08(t *testing.T) {
 		begin := fmt.Sprintf("begin %d 0 compact=1 workers=%d", maxSeg, []int{1, 10}[rnd.Intn(2)])
 		if rnd.Intn(5) == 0 {
 			begin += fmt.Sprintf(" maxmsgs=%d", 2+rnd.Intn(8))
+		}
+		keys = plainKeys
+		if rnd.Intn(4) == 0 {
+			pool := advPools[rnd.Intn(len(advPools))]
+			keys = append([]string{"-", `""`}, pool...)
+			res.Dist("keys:adversarial")
 		}
 		prog := []string{begin}
 		ts := int64(1000)
